@@ -10,6 +10,8 @@ import (
 	"fmt"
 	"io"
 	"net/http"
+	"os"
+	"path/filepath"
 	"runtime"
 	"sort"
 	"strings"
@@ -23,8 +25,8 @@ import (
 	"github.com/flamego/flamego/verifharness/internal/rt"
 )
 
-const rule = "round = an application with 0..7 separately added middleware, routes of every kind (static via the shortcut, optional static, regex with user groups, placeholder, match-all with capture, header-constrained, named routes whose handlers build URLs, Recovery and Renderer middleware, a route that renders JSON through the request-scoped Render service, a route whose handler panics, a middleware that maps a per-request token read from a header, handlers that receive it by type and an application service through an interface it implements; some requests make the route's first handler note the token in the request's own parameter map, some are not-found after a partial match; expected responses = every distinct request served alone by an instance that has served nothing else; instance B is fresh (nothing lazily cached yet) and is hit by 2..16 goroutines released together, each with its own list of 5..40 requests and runtime.Gosched() yields inside the handlers, under GOMAXPROCS in {2,4,16}. " +
-	"Oracle: (1) every concurrent response (status and body = route marker + echoed parameters + token + built URL) equals the response to the same request served alone; (2) the Go race detector reports nothing (binary built with -race, GORACE=halt_on_error=1; the driver turns a report into a violation). " +
+const rule = "round = an application with 0..7 separately added middleware, routes of every kind (static via the shortcut, optional static, regex with user groups, placeholder, match-all with capture, header-constrained, named routes whose handlers build URLs, Recovery, Renderer and Static (with ETags) middleware, a route that renders JSON through the request-scoped Render service, a route whose handler panics, a middleware that maps a per-request token read from a header, handlers that receive it by type and an application service through an interface it implements; some requests make the route's first handler note the token in the request's own parameter map, some are not-found after a partial match, some use a method the router has no table for; expected responses = every distinct request served alone by an instance that has served nothing else; instance B is fresh (nothing lazily cached yet) and is hit by 2..16 goroutines released together, each with its own list of 5..40 requests and runtime.Gosched() yields inside the handlers, under GOMAXPROCS in {2,4,16}. " +
+	"Oracle: (1) every concurrent response (status, ETag and body = route marker + echoed parameters + token + built URL) equals the response to the same request served alone; (2) the Go race detector reports nothing (binary built with -race, GORACE=halt_on_error=1; the driver turns a report into a violation). " +
 	"non-trivial = a round in which >= 2 goroutines start with the same dynamic named route (the first use of lazily cached state is contended) and >= 3 kinds of route are hit; distinct by round text"
 
 var assumptions = []string{
@@ -33,7 +35,21 @@ var assumptions = []string{
 	"a failure found through the race detector reproduces only statistically",
 }
 
+// assetsDir holds a few files served by the Static middleware (with ETags).
+var assetsDir string
+
 func TestMain(m *testing.M) {
+	dir, err := os.MkdirTemp("", "c05-assets-")
+	if err != nil {
+		panic(err)
+	}
+	assetsDir = dir
+	for name, size := range map[string]int{"a.txt": 10, "b.txt": 2000, "c.css": 333, "d.js": 70000, "e.html": 1} {
+		if err := os.WriteFile(filepath.Join(dir, name), []byte(strings.Repeat(name[:1], size)), 0o644); err != nil {
+			panic(err)
+		}
+	}
+	evid.AtExit(func() { _ = os.RemoveAll(dir) })
 	evid.PersistInflight()
 	evid.Main(m, "C05", rule, assumptions)
 }
@@ -70,6 +86,7 @@ func (s *svc) Name() string { return s.name }
 func build(r Round) *flamego.Flame {
 	f := flamego.NewWithLogger(io.Discard)
 	f.Use(flamego.Recovery(), flamego.Renderer(flamego.RenderOptions{JSONIndent: " "}))
+	f.Use(flamego.Static(flamego.StaticOptions{Directory: assetsDir, Prefix: "/assets", SetETag: true}))
 	f.Map(&svc{"svc-A"})
 	for i := 0; i < r.Middleware; i++ {
 		f.Use(func(c flamego.Context) {}) // separate calls: the middleware slice may end up with spare capacity
@@ -153,6 +170,7 @@ func build(r Round) *flamego.Flame {
 type resp struct {
 	status int
 	body   string
+	etag   string
 }
 
 func serve(f *flamego.Flame, q Req) resp {
@@ -166,7 +184,7 @@ func serve(f *flamego.Flame, q Req) resp {
 	}
 	spy := rt.NewSpy()
 	f.ServeHTTP(spy, rt.NewRequest(q.M, q.P, h))
-	return resp{spy.Status(), string(spy.Body)}
+	return resp{spy.Status(), string(spy.Body), spy.H.Get("ETag")}
 }
 
 func kindOf(body string) string {
@@ -258,7 +276,7 @@ var seg = []string{"a", "bob", "x.y", "12", "%41", "main.go", "src", "lib", "dee
 func genReq(t *rapid.T, n int) Req {
 	s := func() string { return seg[rapid.IntRange(0, len(seg)-1).Draw(t, "seg")] }
 	q := Req{M: "GET", Token: fmt.Sprintf("tok-%d", n)}
-	switch rapid.IntRange(0, 15).Draw(t, "rk") {
+	switch rapid.IntRange(0, 17).Draw(t, "rk") {
 	case 0:
 		q.P = "/"
 	case 1:
@@ -300,6 +318,9 @@ func genReq(t *rapid.T, n int) Req {
 		q.P = []string{"/nosuch/", "/render/", "/render/", "/panic/"}[rapid.IntRange(0, 3).Draw(t, "rp")] + s()
 	case 13:
 		q.P = "//users//" + s()
+	case 15:
+		// a file served by the Static middleware (with its ETag)
+		q.P = "/assets/" + []string{"a.txt", "b.txt", "c.css", "d.js", "e.html", "nosuch.txt"}[rapid.IntRange(0, 5).Draw(t, "asset")]
 	case 14:
 		// not found after part of the path was matched (and captured) on the way
 		q.P = []string{"/users/" + s() + "/extra", "/members/" + s() + "/" + s() + "/more", "/multi/" + s() + "/x", "/files/" + s() + "/a/b/c/d/raw", "/g/" + s() + "/r", "/posts/2021-" + s()}[rapid.IntRange(0, 5).Draw(t, "pm")]
@@ -307,6 +328,10 @@ func genReq(t *rapid.T, n int) Req {
 		q.P = "/users/" + s()
 	}
 	q.Scratch = rapid.IntRange(0, 3).Draw(t, "scratch") == 0
+	if rapid.IntRange(0, 9).Draw(t, "oddmethod") == 0 {
+		// a method the router has no table for (answered by the not-found chain)
+		q.M = []string{"PROPFIND", "PURGE", "get", "M-SEARCH", "REPORT"}[rapid.IntRange(0, 4).Draw(t, "om")]
+	}
 	return q
 }
 
